@@ -414,8 +414,9 @@ theorem C13_sections_compose (c : Cfg) (st : St) (op : Op) (hnp : (step c st op)
 and `RangeReadRef` (`full_range` / `range` / nested `make_subrange`, offsets shifted with `checked_add`).
 `CC.xrun c |F| ops` is the cache state after an arbitrary history of calls of *both* layers
 (`XOp.base op` = the three `FileContents` methods, `XOp.view v` = the shared.rs entry points).
-`op.startOk`: the starts of the nested `make_subrange` calls add up to less than `2^64` (the addition at
-shared.rs:1057 is unchecked — see `C13_shared_subrange_overflow_panics`). -/
+`viewStart base subs`: where a view starts in the file — the sum of the starts of the nested `make_subrange`
+calls, capped at `u64::MAX` (`saturating_add`, repair 989a9c95; the pre-fix code added unchecked, see
+`C13_legacy_counterexample_subrange_overflow`). No hypothesis on the views is left. -/
 
 /-- The invariant holds after every history of calls of both layers (also after views whose `make_subrange`
 chain overflowed: those calls panic before they reach the cache). -/
@@ -429,22 +430,22 @@ of the view's starts, errors reduced to `Err(())`; shifted offsets that overflow
 `range_size` plays no role) — or the source's failure on the buffer it had to read (reported as `err source`
 by `read_entire_data` and the `FileContents` methods, as `Err(())` by the `ReadRef` impls), state unchanged. -/
 theorem C13_shared_step (c : Cfg) (F : List UInt8) (hc : 0 < c.chunk) (hsz : F.length < U64)
-    (hf : Faithful F c.src) (ops : List XOp) (op : XOp) (hstart : op.startOk) :
+    (hf : Faithful F c.src) (ops : List XOp) (op : XOp) :
     (xstep c (xrun c F.length ops) op).2 = xspec F c.src op ∨
     ((xstep c (xrun c F.length ops) op).2 = .err op.srcErr ∧
       (xstep c (xrun c F.length ops) op).1 = xrun c F.length ops ∧ SrcFails c F (op.under F.length)) :=
-  (xstep_spec c F hc hsz hf _ (xrun_inv c F hc hsz hf ops) op hstart).2
+  (xstep_spec c F hc hsz hf _ (xrun_inv c F hc hsz hf ops) op).2
 
 /-- With a source that succeeds on in-bounds requests, every call of either layer after any mixed history
 returns `CC.xspec F src op`: independent of the history (and of the chunk size, which does not occur in
 `xspec`). -/
 theorem C13_shared_history_independent (c : Cfg) (F : List UInt8) (hc : 0 < c.chunk) (hsz : F.length < U64)
-    (hf : Faithful F c.src) (hok : SourceOk F c.src) (ops₁ ops₂ : List XOp) (op : XOp) (hstart : op.startOk) :
+    (hf : Faithful F c.src) (hok : SourceOk F c.src) (ops₁ ops₂ : List XOp) (op : XOp) :
     (xstep c (xrun c F.length ops₁) op).2 = xspec F c.src op ∧
     (xstep c (xrun c F.length ops₁) op).2 = (xstep c (xrun c F.length ops₂) op).2 := by
   have key : ∀ ops, (xstep c (xrun c F.length ops) op).2 = xspec F c.src op := by
     intro ops
-    rcases C13_shared_step c F hc hsz hf ops op hstart with hs | ⟨_, _, hfail⟩
+    rcases C13_shared_step c F hc hsz hf ops op with hs | ⟨_, _, hfail⟩
     · exact hs
     · exact absurd hfail (srcFails_not_ok hok _)
   exact ⟨key ops₁, by rw [key ops₁, key ops₂]⟩
@@ -453,19 +454,20 @@ theorem C13_shared_history_independent (c : Cfg) (F : List UInt8) (hc : 0 < c.ch
 theorem C13_shared_entire (c : Cfg) (F : List UInt8) (hc : 0 < c.chunk) (hsz : F.length < U64)
     (hf : Faithful F c.src) (hok : SourceOk F c.src) (ops : List XOp) :
     (xstep c (xrun c F.length ops) (.view .entire)).2 = .ok F :=
-  (C13_shared_history_independent c F hc hsz hf hok ops ops (.view .entire) trivial).1
+  (C13_shared_history_independent c F hc hsz hf hok ops ops (.view .entire)).1
 
-/-- A read through a (nested) view at offset `o` is the read of the file at `start₀ + start₁ + … + o`: with a
-succeeding source, in bounds it returns exactly those bytes of the file; out of bounds, or when the shifted
-offset overflows `u64`, it fails cleanly. -/
+/-- A read through a (nested) view at offset `o` is the read of the file at `viewStart + o`
+(`start₀ + start₁ + … + o`, the sum capped at `u64::MAX`): with a succeeding source, in bounds it returns
+exactly those bytes of the file; out of bounds, or when the shifted offset overflows `u64`, it fails cleanly —
+for every view, also one whose starts add up to `2^64` or more. -/
 theorem C13_shared_view_read (c : Cfg) (F : List UInt8) (hc : 0 < c.chunk) (hsz : F.length < U64)
     (hf : Faithful F c.src) (hok : SourceOk F c.src) (ops : List XOp) (base : Option (Nat × Nat))
-    (subs : List (Nat × Nat)) (o n : Nat) (hstart : viewStart base subs < U64) :
+    (subs : List (Nat × Nat)) (o n : Nat) :
     (viewStart base subs + o + n ≤ F.length →
       (xstep c (xrun c F.length ops) (.view (.vread base subs o n))).2 = .ok (slice F (viewStart base subs + o) n)) ∧
     (n ≠ 0 → F.length < viewStart base subs + o + n →
       (xstep c (xrun c F.length ops) (.view (.vread base subs o n))).2 = .err .discarded) := by
-  have h := (C13_shared_history_independent c F hc hsz hf hok ops ops (.view (.vread base subs o n)) hstart).1
+  have h := (C13_shared_history_independent c F hc hsz hf hok ops ops (.view (.vread base subs o n))).1
   rw [h]
   simp only [xspec, vspec]
   generalize viewStart base subs = s at *
@@ -486,11 +488,11 @@ theorem C13_shared_view_read (c : Cfg) (F : List UInt8) (hc : 0 < c.chunk) (hsz 
       · simp only [h2, if_true, discardErr]
       · simp only [h2, hout, if_true, if_false, discardErr]
 
-/-- No call of either layer panics after any history, provided the `make_subrange` chains do not overflow. -/
+/-- No call of either layer panics after any history (no hypothesis on the views: `make_subrange` saturates). -/
 theorem C13_shared_no_panic (c : Cfg) (F : List UInt8) (hc : 0 < c.chunk) (hsz : F.length < U64)
-    (hf : Faithful F c.src) (ops : List XOp) (op : XOp) (hstart : op.startOk) :
+    (hf : Faithful F c.src) (ops : List XOp) (op : XOp) :
     (xstep c (xrun c F.length ops) op).2 ≠ .panic := by
-  rcases C13_shared_step c F hc hsz hf ops op hstart with hs | ⟨hs, _⟩
+  rcases C13_shared_step c F hc hsz hf ops op with hs | ⟨hs, _⟩
   · rw [hs]
     cases op with
     | base op =>
@@ -516,27 +518,60 @@ theorem C13_shared_no_panic (c : Cfg) (F : List UInt8) (hc : 0 < c.chunk) (hsz :
                                 all_goals simp [discardErr] at h
   · rw [hs]; simp
 
-/-- The excluded point of `startOk`, as the code behaves with overflow checks on: a view read through a
-non-empty `make_subrange` chain whose starts add up to `2^64` or more panics (shared.rs:1057,
-`self.range_start + start` unchecked; a release build wraps instead and reads at the wrapped offset), leaving
-the cache untouched. The harness has this family (`gen_subrange_overflow`), the judge demands a clean error
-there. -/
-theorem C13_shared_subrange_overflow_panics (c : Cfg) (st : St) (base : Option (Nat × Nat))
-    (subs : List (Nat × Nat)) (o n : Nat) (hne : subs ≠ []) (hov : U64 ≤ viewStart base subs) :
-    vstep c st (.vread base subs o n) = (st, .panic) := by
-  simp only [vstep]
-  rw [build_overflow _ subs hne (by rw [viewBase_start]; exact hov)]
+/-- A view built by a `make_subrange` chain whose starts add up to `2^64` or more (the input family that made the
+pre-fix code panic / wrap) fails cleanly after any history: every non-empty read through it returns `Err(())`
+and leaves the cache untouched; a zero-length read at offset 0 returns the empty slice (the view starts at
+`u64::MAX` and `read_bytes_at(_, 0)` is `Ok(&[])` for every offset), at any other offset `Err(())`. -/
+theorem C13_shared_subrange_overflow_fails_cleanly (c : Cfg) (F : List UInt8) (hc : 0 < c.chunk)
+    (hsz : F.length < U64) (hf : Faithful F c.src) (ops : List XOp) (base : Option (Nat × Nat))
+    (subs : List (Nat × Nat)) (o n : Nat) (hne : subs ≠ [])
+    (hov : U64 ≤ (match base with | none => 0 | some (s, _) => s) + (subs.map (·.1)).sum) :
+    viewStart base subs = U64 - 1 ∧
+    (xstep c (xrun c F.length ops) (.view (.vread base subs o n))).2 =
+      (if o = 0 ∧ n = 0 then .ok [] else .err .discarded) ∧
+    (xstep c (xrun c F.length ops) (.view (.vread base subs o n))).1 = xrun c F.length ops := by
+  have hvs : viewStart base subs = U64 - 1 := by
+    unfold viewStart
+    cases subs with
+    | nil => exact absurd rfl hne
+    | cons e rest =>
+      simp only [List.isEmpty_cons, Bool.false_eq_true, if_false]
+      generalize (List.map (fun x => x.fst) (e :: rest)).sum = sm at hov ⊢
+      cases base with
+      | none =>
+        simp only [U64, Nat.min_def] at hov ⊢
+        split <;> omega
+      | some b =>
+        obtain ⟨s, z⟩ := b
+        simp only [U64, Nat.min_def] at hov ⊢
+        split <;> omega
+  refine ⟨hvs, ?_⟩
+  have hl := (xrun_inv c F hc hsz hf ops).fileLen
+  generalize xrun c F.length ops = st at hl ⊢
+  simp only [xstep, vstep, viewBase_start, hvs]
+  by_cases ho : o = 0
+  · subst ho
+    have n1 : ¬ U64 ≤ U64 - 1 + 0 := by decide
+    simp only [n1, if_false, readBytesAt]
+    by_cases h0 : n = 0
+    · simp [h0, discardErr]
+    · have n2 : U64 ≤ U64 - 1 + n := by
+        simp only [U64]; omega
+      simp [h0, n2, discardErr]
+  · have n1 : U64 ≤ U64 - 1 + o := by
+      simp only [U64]; omega
+    simp [n1, ho]
 
 /-- **A call of the shared.rs layer is its cache-level call plus local wrapper code.** Unless the wrapper
 refuses it before it reaches the cache (`v.refused`: shifted offset beyond `u64`, inverted range), a view call
 is exactly `CC.step` on the cache-level call `v.under` — same new state — with the outcome passed through
 `v.post` (`Err(())` for the `ReadRef` impls, unchanged for `read_entire_data`). The wrapper code touches no
 shared state: at lock granularity a view call has the atomic sections of `v.under`. -/
-theorem C13_shared_reduces (c : Cfg) (st : St) (v : VOp) (hstart : v.startOk) :
+theorem C13_shared_reduces (c : Cfg) (st : St) (v : VOp) :
     vstep c st v =
       if v.refused then (st, .err .discarded)
       else ((step c st (v.under st.fileLen)).1, v.post (step c st (v.under st.fileLen)).2) :=
-  vstep_reduces c st v hstart
+  vstep_reduces c st v
 
 /-- Concurrent readers going through the shared.rs layer: by `C13_shared_reduces` a thread making the view
 call `v` executes the sections of `v.under` and hands `v.post out` to its caller; under every schedule, with any
@@ -591,6 +626,33 @@ theorem C13_legacy_counterexample_round_up_overflow :
     determineRangeSourcing realChunk ⟨U64 - 1, [], []⟩ ⟨U64 - 16, U64 - 11⟩
       = .ok (.needNew ⟨U64 - 32768, U64 - 1⟩) := by
   decide
+
+/-- Pre-989a9c95 (`RangeReadRef::make_subrange` added `self.range_start + start` unchecked):
+`wrapper.range(2^64-10, 5).make_subrange(20, 1).read_bytes_at(0, 1)` on the 20-byte file panics (overflow checks
+on; a release build wraps to offset 10 and returns that byte of the file), while the repaired code — the view
+now starts at `u64::MAX` — fails cleanly with `Err(())`; so does the shorter chain that lands exactly on
+`2^64`. This is the input family `C13_shared_no_panic` had to exclude before the repair. -/
+theorem C13_legacy_counterexample_subrange_overflow :
+    (vreadLegacy C13_legacyCfg (St.init 20) (some (U64 - 10, 5)) [(20, 1)] 0 1).2 = .panic ∧
+    (vstep C13_legacyCfg (St.init 20) (.vread (some (U64 - 10, 5)) [(20, 1)] 0 1)).2 = .err .discarded ∧
+    (vreadLegacy C13_legacyCfg (St.init 20) none [(U64 - 1, 7), (1, 1)] 0 0).2 = .panic ∧
+    (vstep C13_legacyCfg (St.init 20) (.vread none [(U64 - 1, 7), (1, 1)] 0 0)).2 = .ok [] := by
+  decide
+
+/-- …in general: before the repair every read through a non-empty chain whose starts reach `2^64` panicked,
+and on every chain that does not overflow the pre-fix and the repaired view are the same (the repair changes
+nothing else). -/
+theorem C13_legacy_subrange_overflow_general (c : Cfg) (st : St) (base : Option (Nat × Nat))
+    (subs : List (Nat × Nat)) (o n : Nat) :
+    (subs ≠ [] → U64 ≤ (viewBase st.fileLen base).start + (subs.map (·.1)).sum →
+      vreadLegacy c st base subs o n = (st, .panic)) ∧
+    ((viewBase st.fileLen base).start + (subs.map (·.1)).sum < U64 →
+      vreadLegacy c st base subs o n = vstep c st (.vread base subs o n)) := by
+  constructor
+  · intro hne hov
+    simp only [vreadLegacy, buildLegacy_overflow _ subs hne hov]
+  · intro hok
+    simp only [vreadLegacy, buildLegacy_ok _ subs hok, vstep]
 
 /-! ### Non-vacuity: the hypotheses are satisfiable and the conclusions are about real behaviour -/
 
@@ -651,7 +713,7 @@ example :
     (xstep c s1 (.view (.vuntil (some (2, 5)) [(2, 0)] ⟨0, 16⟩ 0))).2 = .ok [5, 6, 7, 8, 9, 10, 11, 12] ∧
     (xstep c s1 (.view (.wuntil ⟨4, 8⟩ 0))).2 = .err .discarded ∧
     (xstep c s1 (.view .entire)).2 = .ok C13_legacyFile ∧
-    (xstep c s1 (.view (.vread (some (U64 - 1, 5)) [(1, 1)] 0 1))).2 = .panic ∧
+    (xstep c s1 (.view (.vread (some (U64 - 1, 5)) [(1, 1)] 0 1))).2 = .err .discarded ∧
     (xstep c s1 (.view (.vread (some (U64 - 1, 5)) [] 1 1))).2 = .err .discarded := by
   decide
 
